@@ -627,4 +627,6 @@ def load(repo=None, extra_units=(), extra_roots=(), extra_flags=()):
         db.add_unit(None, json.loads(text.replace(ROOT_TOKEN + '/', repo + '/')))
     db.extract_s = time.time() - t0
     db.repo = repo
+    from . import normal
+    db.inlined_helpers = normal.inline_new_helpers(db)
     return db
